@@ -13,6 +13,7 @@ import (
 	"runtime"
 	"strings"
 	"sync"
+	"sync/atomic"
 	"time"
 
 	"google.golang.org/genproto/googleapis/bytestream"
@@ -63,6 +64,7 @@ type fx struct {
 	fetch  asset.FetchClient
 	mu     sync.Mutex
 	panics []string
+	active atomic.Int64 // gRPC handlers currently running
 }
 
 var fxCounter int
@@ -113,10 +115,14 @@ func newFx(o fxOpts) *fx {
 	f.lis = bufconn.Listen(4 << 20)
 	f.srv = grpc.NewServer(
 		grpc.ChainUnaryInterceptor(func(ctx context.Context, req interface{}, info *grpc.UnaryServerInfo, h grpc.UnaryHandler) (resp interface{}, err error) {
+			f.active.Add(1)
+			defer f.active.Add(-1)
 			defer f.recoverPanic(info.FullMethod, &err)
 			return h(ctx, req)
 		}),
 		grpc.ChainStreamInterceptor(func(srv interface{}, ss grpc.ServerStream, info *grpc.StreamServerInfo, h grpc.StreamHandler) (err error) {
+			f.active.Add(1)
+			defer f.active.Add(-1)
 			defer f.recoverPanic(info.FullMethod, &err)
 			return h(srv, ss)
 		}),
@@ -193,11 +199,21 @@ func (f *fx) close() {
 // while their storage goroutine is still cleaning up.
 func (f *fx) settle() bool {
 	deadline := time.Now().Add(20 * time.Second)
+	stable := 0
 	for time.Now().Before(deadline) {
 		_, reserved, _, _ := f.cache.Stats()
-		if reserved == 0 && disk.VfDrain(f.cache) {
-			return true
+		// an aborted RPC returns to the client before its handler has run
+		// to the end: wait until no handler is active, and require the
+		// quiet state to persist over a few polls
+		if f.active.Load() == 0 && reserved == 0 && disk.VfDrain(f.cache) {
+			stable++
+			if stable >= 4 {
+				return true
+			}
+			time.Sleep(2 * time.Millisecond)
+			continue
 		}
+		stable = 0
 		time.Sleep(time.Millisecond)
 	}
 	return false
